@@ -62,7 +62,7 @@ func (r *runner) query(q string) res {
 	case time.Time:
 		return res{t: v.UTC(), isT: true}
 	case string:
-		for _, layout := range []string{"2006-01-02", "2006-01-02 15:04:05", "2006-01-02 15:04:05.000000"} {
+		for _, layout := range []string{"2006-01-02", "2006-01-02 15:04:05", "2006-01-02 15:04:05.999999"} {
 			if t, err := time.Parse(layout, v); err == nil {
 				return res{t: t, isT: true, s: v}
 			}
@@ -166,7 +166,7 @@ var fmtPieces = [][]string{
 }
 
 func gen(r *lib.RNG) caseT {
-	fams := []string{"adddays", "addmonths", "addyears", "datediff", "tsdiff", "strdate", "strdate", "format", "format", "castdate"}
+	fams := []string{"adddays", "addmonths", "addyears", "datediff", "datediffdt", "datediffdt", "addsubday", "addsubday", "tsdiff", "strdate", "strdate", "format", "format", "castdate"}
 	f := lib.Pick(r, fams)
 	y, m, d := genDate(r)
 	switch f {
@@ -195,6 +195,53 @@ func gen(r *lib.RNG) caseT {
 			}
 		}
 		return caseT{Fam: f, In: []int64{y, m, d, y2, m2, d2}}
+	case "datediffdt":
+		// datetimes with (possibly zero) time parts, before 1970, after it and across the epoch
+		if r.Chance(2, 3) {
+			y = int64(r.Range(1960, 1972))
+			if r.Chance(1, 3) {
+				y, m, d = 1969, 12, int64(r.Range(29, 31))
+			}
+			if d > dim(y, m) {
+				d = dim(y, m)
+			}
+		}
+		y2, m2, d2 := y, m, d
+		switch r.Intn(4) {
+		case 0:
+			y2, m2, d2 = genDate(r)
+		case 1:
+			y2, m2, d2 = 1970, 1, int64(r.Range(1, 3))
+		default:
+			t := time.Date(int(y), time.Month(m), int(d), 0, 0, 0, 0, time.UTC).AddDate(0, 0, r.Range(-3, 3))
+			y2, m2, d2 = int64(t.Year()), int64(t.Month()), int64(t.Day())
+		}
+		tod := func() int64 {
+			switch r.Intn(4) {
+			case 0:
+				return -1 // date-only string
+			case 1:
+				return lib.Pick(r, []int64{0, 1, 43199, 43200, 43201, 86399})
+			}
+			return int64(r.Intn(86400))
+		}
+		return caseT{Fam: f, In: []int64{y, m, d, tod(), y2, m2, d2, tod()}}
+	case "addsubday":
+		if r.Chance(1, 3) {
+			y, m, d = int64(lib.Pick(r, []int{1969, 1970, 1999, 2000, 2024})), int64(lib.Pick(r, []int{1, 2, 12})), 1
+			if r.Bool() {
+				d = dim(y, m)
+			}
+		}
+		n := int64(r.Range(-100, 100))
+		switch r.Intn(4) {
+		case 0:
+			n = lib.Pick(r, []int64{1, -1, 5, -5, 999999, 1000000, 1000001, 59, 60, 61, 86399, 86400, 3600, 24, 25, -24})
+		case 1:
+			n = int64(r.Range(-200000, 200000))
+		}
+		// unit index, argument shape: 0 date-only string, 1 DATE()-typed expression, 2 datetime string
+		return caseT{Fam: f, In: []int64{y, m, d, n, int64(r.Intn(4)), int64(r.Intn(3)), int64(r.Intn(86400))}}
 	case "tsdiff":
 		y2, m2, d2 := y, m, d
 		if r.Bool() {
@@ -345,6 +392,83 @@ func run(c *lib.Ctx, e *eng.E, cs caseT) {
 		if dd.isN && (!d2.isN || d2.n != -dd.n) {
 			fail("datediff/not-antisymmetric", fmt.Sprintf("%s = %d but reversed = %d", q, dd.n, d2.n))
 		}
+	case "datediffdt":
+		lit := func(y, m, d, t int64) string {
+			if t < 0 {
+				return ymd(y, m, d)
+			}
+			return ymd(y, m, d) + " " + hms(t)
+		}
+		q := fmt.Sprintf("SELECT DATEDIFF('%s', '%s')", lit(in[0], in[1], in[2], in[3]), lit(in[4], in[5], in[6], in[7]))
+		dd := r.query(q)
+		t1, t2 := in[3], in[7]
+		if t1 < 0 {
+			t1 = 0
+		}
+		if t2 < 0 {
+			t2 = 0
+		}
+		r.rec(10, q, []int64{in[0], in[1], in[2], t1, in[4], in[5], in[6], t2}, dd, false)
+		// the day numbers of the DATE parts only (midnight Unix times are exact multiples of 86400)
+		wd := goDate(in[0], in[1], in[2]).Unix()/86400 - goDate(in[4], in[5], in[6]).Unix()/86400
+		if !dd.isN || dd.n != wd {
+			sig := ddSig(wd)
+			if sig == "datediff/not-day-difference" && (in[3] > 0 || in[7] > 0) {
+				sig = "datediff/time-part-changes-result"
+			}
+			fail(sig, fmt.Sprintf("%s = %d%s, expected %d (difference of the date parts)", q, dd.n, dd.err, wd))
+		}
+	case "addsubday":
+		y, m, d, n := in[0], in[1], in[2], in[3]
+		u := []struct {
+			name string
+			us   int64
+		}{{"MICROSECOND", 1}, {"SECOND", 1000000}, {"MINUTE", 60000000}, {"HOUR", 3600000000}}[in[4]]
+		shape := in[5]
+		tod := int64(0)
+		arg := "'" + ymd(y, m, d) + "'"
+		switch shape {
+		case 1:
+			arg = "DATE('" + ymd(y, m, d) + "')"
+		case 2:
+			tod = in[6]
+			arg = "'" + ymd(y, m, d) + " " + hms(tod) + "'"
+		}
+		start := goDate(y, m, d).Add(time.Duration(tod) * time.Second)
+		want := start.Add(time.Duration(n*u.us) * time.Microsecond)
+		moment := func(x res) []int64 {
+			t := x.t
+			return []int64{int64(t.Year()), int64(t.Month()), int64(t.Day()), (int64(t.Hour())*3600+int64(t.Minute())*60+int64(t.Second()))*1000000 + int64(t.Nanosecond()/1000)}
+		}
+		q := fmt.Sprintf("SELECT DATE_ADD(%s, INTERVAL %d %s)", arg, n, u.name)
+		a := r.query(q)
+		ca := Call{Fn: 11, SQL: q, Args: []int64{y, m, d, tod * 1000000, n * u.us}, Null: a.null, Err: a.err, Out: []int64{-1}}
+		if a.isT {
+			ca.Out = moment(a)
+		}
+		r.cs.Calls = append(r.cs.Calls, ca)
+		if !a.isT || !a.t.Equal(want) {
+			fail("subday-add/wrong-value", fmt.Sprintf("%s = %s%s, expected %s", q, a.s, a.err, want.Format("2006-01-02 15:04:05.000000")))
+			break
+		}
+		q2 := fmt.Sprintf("SELECT DATE_SUB(DATE_ADD(%s, INTERVAL %d %s), INTERVAL %d %s)", arg, n, u.name, n, u.name)
+		b := r.query(q2)
+		if !b.isT || !b.t.Equal(start) {
+			fail("subday-add-sub/not-inverse", fmt.Sprintf("%s = %s%s, expected %s", q2, b.s, b.err, start.Format("2006-01-02 15:04:05.000000")))
+		}
+		// the same in two steps, feeding the printed intermediate value back as a literal
+		lit := want.Format("2006-01-02 15:04:05.000000")
+		q3 := fmt.Sprintf("SELECT DATE_SUB('%s', INTERVAL %d %s)", lit, n, u.name)
+		c3 := r.query(q3)
+		mw := []int64{int64(want.Year()), int64(want.Month()), int64(want.Day()), (int64(want.Hour())*3600+int64(want.Minute())*60+int64(want.Second()))*1000000 + int64(want.Nanosecond()/1000)}
+		cb := Call{Fn: 11, SQL: q3, Args: append(mw, -n*u.us), Null: c3.null, Err: c3.err, Out: []int64{-1}}
+		if c3.isT {
+			cb.Out = moment(c3)
+		}
+		r.cs.Calls = append(r.cs.Calls, cb)
+		if !c3.isT || !c3.t.Equal(start) {
+			fail("subday-add-sub/not-inverse", fmt.Sprintf("%s = %s%s, expected %s", q3, c3.s, c3.err, start.Format("2006-01-02 15:04:05.000000")))
+		}
 	case "tsdiff":
 		a := fmt.Sprintf("%s %s", ymd(in[0], in[1], in[2]), hms(in[3]))
 		b := fmt.Sprintf("%s %s", ymd(in[4], in[5], in[6]), hms(in[7]))
@@ -485,7 +609,8 @@ func main() {
 		c.CaseType = "C31.case"
 		c.MismatchFn = "C31.mismatches"
 		c.SetRule("dates in years 1..9990 (leap years, century rules, month ends over-represented); DATE_ADD/DATE_SUB with DAY/MONTH/YEAR " +
-			"intervals of both signs, DATEDIFF pairs, TIMESTAMPDIFF in SECOND/MINUTE/HOUR/DAY/WEEK with times of day, STR_TO_DATE on " +
+			"intervals of both signs, sub-day units (MICROSECOND/SECOND/MINUTE/HOUR) on date-only strings, DATE()-typed values and datetimes, " +
+			"DATEDIFF pairs incl. datetimes with time parts before 1970 and across the epoch, TIMESTAMPDIFF in SECOND/MINUTE/HOUR/DAY/WEEK with times of day, STR_TO_DATE on " +
 			"field-wise plausible but partly non-existent dates, CAST/DATE of non-existent dates, DATE_FORMAT/STR_TO_DATE round trips over " +
 			"formats assembled from the specifier set. Non-trivial = inside the identity's domain; distinct = distinct inputs.")
 		e := eng.New("db")
@@ -504,6 +629,13 @@ func main() {
 			{Fam: "format", Fmt: "%Y%m%d%H%i%s", In: []int64{2032, 2, 28, 86329, 0}},
 			{Fam: "datediff", In: []int64{2337, 10, 4, 1964, 2, 21}},
 			{Fam: "format", Fmt: "%y%m/%d at %H.%i:%S", In: []int64{2002, 8, 30, 76556, 0}},
+			{Fam: "datediffdt", In: []int64{1969, 12, 31, 43200, 1969, 12, 30, -1}},
+			{Fam: "datediffdt", In: []int64{1970, 1, 1, 43200, 1969, 12, 31, 46800}},
+			{Fam: "datediffdt", In: []int64{1969, 12, 30, -1, 1969, 12, 31, 43200}},
+			{Fam: "addsubday", In: []int64{2024, 1, 15, 5, 0, 0, 0}},
+			{Fam: "addsubday", In: []int64{2024, 1, 15, 5, 0, 1, 0}},
+			{Fam: "addsubday", In: []int64{1970, 1, 1, -1, 1, 0, 0}},
+			{Fam: "addsubday", In: []int64{2024, 2, 29, 25, 3, 1, 0}},
 			{Fam: "addmonths", In: []int64{2024, 1, 31, 1}},
 			{Fam: "addmonths", In: []int64{2024, 1, 15, -1}},
 			{Fam: "addyears", In: []int64{2024, 2, 29, 1}},
